@@ -1059,7 +1059,19 @@ impl<'a> R<'a> {
     fn program(&mut self, p: &Program) {
         let n = p.blocks.len();
         for (k, b) in p.blocks.iter().enumerate() {
-            // extra blank lines between top-level blocks are free
+            // extra blank lines between top-level blocks are free, by the hundred too (some holding blanks or a tab):
+            // whatever counts blocks, lines or nesting must not mistake them for something
+            // (decided by a hash of the spelling tape, so that the other decisions keep their places on it)
+            let h = self.sp.content_hash();
+            if self.o.layout && h % 80 == 79 && (h >> 8) as usize % n == k {
+                let lines = [130usize, 270, 1040, 2100][(h >> 20) as usize % 4];
+                for i in 0..lines {
+                    self.push_raw(if i % 7 == 3 { " \n" } else if i % 11 == 5 { "\t\n" } else { "\n" });
+                }
+                self.at_line_start = true;
+                self.last = Last::None;
+                self.st.noncanonical_choices += 1;
+            }
             for _ in 0..3 {
                 if self.choice(self.o.layout, 5) != 4 {
                     break;
